@@ -5,7 +5,6 @@ import (
 	"strings"
 	"sync"
 
-	"github.com/llir/llvm/internal/enc"
 	"github.com/llir/llvm/ir/constant"
 	"github.com/llir/llvm/ir/enum"
 	"github.com/llir/llvm/ir/types"
@@ -159,11 +158,10 @@ func (f *Func) AssignIDs() error {
 	id := int64(0)
 	setName := func(n namedVar) error {
 		if n.IsUnnamed() {
-			if n.ID() != 0 && id != n.ID() {
-				want := id
-				got := n.ID()
-				return errors.Errorf("invalid local ID in function %q, expected %s, got %s", f.Ident(), enc.LocalID(want), enc.LocalID(got))
-			}
+			// The ID of an unnamed local is determined by its position; an ID
+			// assigned earlier (e.g. by a previous print, before the function was
+			// edited) is overwritten. Local IDs given explicitly in LLVM IR
+			// assembly are validated by the parser (asm).
 			n.SetID(id)
 			id++
 		}
